@@ -77,6 +77,9 @@ Spec == Init /\ [][Next]_vars /\ WF_vars(Scan \/ StopTest \/ Up)
 Terminates == <>(phase = "done")
 Correct == phase = "done" =>
              IF Constrained THEN result = Expected
-             ELSE result = NotFound \/ (result \in Ancestors(start) /\ spok[result] = "file")
+             ELSE IF start \in Levels /\ stop \in Levels
+             THEN result = NotFound \/ (result \in Ancestors(start) /\ spok[result] = "file")     \* start above stop: either
+             ELSE LET H == {l \in Ancestors(start) : spok[l] = "file"} IN                           \* unrelated: nearest enclosing
+                  IF H = {} THEN result = NotFound ELSE result = (CHOOSE l \in H : \A m \in H : m <= l)
 NeverAboveStop == (Constrained /\ phase # "done") => cur >= stop
 ================================================================================
